@@ -2,6 +2,7 @@ package c12
 
 import (
 	"context"
+	"errors"
 	"fmt"
 	"io"
 	"math/rand"
@@ -58,10 +59,32 @@ type proxy struct {
 
 	calls  *proxyStats
 	closed atomic.Bool
+
+	// fault injection (only in cases that ask for it, only while *faultsOn is true):
+	// faultPct percent of the LTXFiles / OpenLTXFile / WriteLTXFile calls fail; an upload
+	// fails either before anything is read or after part of the stream was consumed,
+	// nothing is ever written by a failed upload
+	faultPct int
+	faultsOn *atomic.Bool
+}
+
+var errInjected = errors.New("injected storage fault")
+
+func (p *proxy) fault() bool {
+	if p.faultPct <= 0 || p.faultsOn == nil || !p.faultsOn.Load() {
+		return false
+	}
+	p.mu.Lock()
+	hit := p.rng.Intn(100) < p.faultPct
+	p.mu.Unlock()
+	if hit {
+		p.calls.faults.Add(1)
+	}
+	return hit
 }
 
 type proxyStats struct {
-	list, open, write, delays atomic.Int64
+	list, open, write, delays, faults atomic.Int64
 }
 
 func newProxy(fc *file.ReplicaClient, arch *archiver, maxDelay time.Duration, seed int64, st *proxyStats) *proxy {
@@ -97,12 +120,18 @@ func (p *proxy) sleep(ctx context.Context, d time.Duration) {
 func (p *proxy) LTXFiles(ctx context.Context, level int, seek ltx.TXID, useMetadata bool) (ltx.FileIterator, error) {
 	p.calls.list.Add(1)
 	p.sleep(ctx, p.pick(25))
+	if p.fault() {
+		return nil, fmt.Errorf("list level %d: %w", level, errInjected)
+	}
 	return p.ReplicaClient.LTXFiles(ctx, level, seek, useMetadata)
 }
 
 func (p *proxy) OpenLTXFile(ctx context.Context, level int, minTXID, maxTXID ltx.TXID, offset, size int64) (io.ReadCloser, error) {
 	p.calls.open.Add(1)
 	p.sleep(ctx, p.pick(30))
+	if p.fault() {
+		return nil, fmt.Errorf("open ltx file: %w", errInjected)
+	}
 	return p.ReplicaClient.OpenLTXFile(ctx, level, minTXID, maxTXID, offset, size)
 }
 
@@ -129,6 +158,15 @@ func (p *proxy) WriteLTXFile(ctx context.Context, level int, minTXID, maxTXID lt
 	p.sleep(ctx, p.pick(40))
 	if d := p.pick(40); d > 0 {
 		r = &slowReader{r: r, p: p, ctx: ctx, d: d}
+	}
+	if p.fault() {
+		p.mu.Lock()
+		part := p.rng.Intn(2) == 0
+		p.mu.Unlock()
+		if part { // the upload breaks after part of the stream was consumed
+			_, _ = io.CopyN(io.Discard, r, 600)
+		}
+		return nil, fmt.Errorf("write ltx file: %w", errInjected)
 	}
 	info, err := p.ReplicaClient.WriteLTXFile(ctx, level, minTXID, maxTXID, r)
 	if err == nil && p.arch != nil {
